@@ -361,6 +361,10 @@ func UtxoValidateInsufficientCollateral(
 	minCollateral := new(
 		big.Int,
 	).Mul(fee, new(big.Int).SetUint64(uint64(tmpPparams.CollateralPercentage)))
+	// Round up: the balance must cover fee * percentage / 100 exactly
+	// (balance * 100 >= fee * percentage), never rounded in the
+	// transaction's favour
+	minCollateral.Add(minCollateral, big.NewInt(99))
 	minCollateral.Div(minCollateral, big.NewInt(100))
 	if totalCollateral.Cmp(minCollateral) >= 0 {
 		return nil
